@@ -75,13 +75,17 @@ func (ds *DirStructure) EnsureAbsPath(dirPath string) error {
 		return ds.Parent.EnsureAbsPath(dirPath)
 	}
 
+	// clean paths, so that parent references cannot bypass the scope check
+	dirPath = filepath.Clean(dirPath)
+	rootPath := filepath.Clean(ds.Path)
+
 	// check if root
-	if dirPath == ds.Path {
+	if dirPath == rootPath {
 		return ds.ensure(nil)
 	}
 
 	// check scope
-	slashedPath := ds.Path
+	slashedPath := rootPath
 	// add slash to end
 	if !strings.HasSuffix(slashedPath, string(filepath.Separator)) {
 		slashedPath += string(filepath.Separator)
